@@ -210,6 +210,19 @@ func TestC14_Grid(t *testing.T) {
 			run(&callCase{Fn: "CheckMnemonic", Lang: l, Unit: "zoo ", Times: k, Tail: "zoo"})
 		}
 	}
+	// code points at the edges of the blocks the lists' scripts live in, alone and inside a sentence
+	for _, l := range allLangs() {
+		sent := strings.Split(ref.Encode(tableEntropiesSmall(int(l)), l), l.Sep())
+		for _, r := range gen.BlockEdgeRunes {
+			run(&callCase{Fn: "CheckMnemonic", Lang: int64(implLang[l]), Tail: text(string(r))})
+			w := append([]string(nil), sent...)
+			w[3] = w[3][:len(w[3])/2] + string(r) + w[3][len(w[3])/2:]
+			w[3] = strings.ToValidUTF8(w[3], "")
+			run(&callCase{Fn: "IsMnemonicValid", Lang: int64(implLang[l]), Tail: text(strings.Join(w, " "))})
+			w[0] = string(r) + sent[0]
+			run(&callCase{Fn: "CheckMnemonic", Lang: int64(implLang[l]), Tail: text(strings.Join(w, "\u3000"))})
+		}
+	}
 	// huge inputs
 	if cfg.Shard == 0 {
 		huge := []callCase{
